@@ -26,6 +26,11 @@ inductive Instr
   | rangeChan                     -- OpRange over a channel (one receive per iteration)
   | native (ticks : Nat)          -- OpCallNative: host code, not interruptible, `ticks` steps
   | go (target : Nat)             -- OpGo: starts a VM at `target`
+  | callback (target : Nat) (again : Bool)
+      -- a native function that calls a Scriggo function value (`callable.Value`: a new VM made by
+      -- `create(env)` runs `runFunc` at `target` on the same goroutine, the native code waits for it);
+      -- `again`: the native code calls it again and again (a poll/retry helper whose condition
+      -- never becomes true)
   | halt                          -- the function returns (the VM's code is finished)
 deriving Repr, DecidableEq
 
@@ -37,10 +42,11 @@ structure Facts where
   selectDone : Bool
   rangeDone : Bool
   stopSetsFlag : Bool  -- vm.stop stores env.done = 1
+  epilogue : Bool      -- every runFunc (not only the main VM's) returns ctx.Err() when env.done is set
 deriving Repr, DecidableEq
 
 def Facts.all (F : Facts) : Bool :=
-  F.loopHead && F.recvDone && F.sendDone && F.selectDone && F.rangeDone
+  F.loopHead && F.recvDone && F.sendDone && F.selectDone && F.rangeDone && F.epilogue
 
 inductive Blocked | recv | send | select | rangeChan
 deriving Repr, DecidableEq
@@ -60,9 +66,19 @@ inductive Status
   | finished                      -- runFunc returned
 deriving Repr, DecidableEq
 
+/-- a native function waiting for the Scriggo function value it called -/
+structure CbFrame where
+  ret : Nat        -- the call instruction of the caller
+  target : Nat     -- where the called function starts
+  again : Bool
+deriving Repr, DecidableEq
+
+/-- a goroutine of the run: the VM executing instructions, and below it the VMs whose native
+calls are waiting for it (innermost first) -/
 structure VM where
   pc : Nat
   st : Status
+  frames : List CbFrame := []
 deriving Repr, DecidableEq
 
 inductive Outcome | ctxErr | own
@@ -94,36 +110,52 @@ structure StepResult where
   stop : Bool := false
   spawn : Option VM := none
 
+/-- the innermost `runFunc` returns without an error: the goroutine's own code is finished
+(no frame), or the native caller goes on — calling the function again, or returning to its VM -/
+def popFrame (pc : Nat) (frames : List CbFrame) : VM :=
+  match frames with
+  | [] => ⟨pc, .finishing, []⟩
+  | f :: rest => if f.again then ⟨f.target, .running, f :: rest⟩ else ⟨f.ret + 1, .running, rest⟩
+
+/-- `vm.stop()` in the innermost VM. Its `runFunc` returns `ctx.Err()` (fact `epilogue`); the
+closure made by `callable.Value` panics with it, the panic crosses the native code and every
+enclosing VM's `runFunc` ends the same way: the goroutine is out. Without the fact a called-back
+VM returns nil and zero results, and its native caller goes on. -/
+def stopVM (F : Facts) (v : VM) : StepResult :=
+  if v.frames.isEmpty || F.epilogue then { vm := ⟨v.pc, .stopped, []⟩, stop := true }
+  else { vm := popFrame v.pc v.frames, stop := true }
+
 /-- a blocked (or just attempted) channel operation: it completes when ready; otherwise, with the
 done case in the select and the context's channel closed, the VM stops; otherwise it stays blocked -/
-def blockStep (F : Facts) (ctxClosed rdy : Bool) (pc : Nat) (b : Blocked) : StepResult :=
-  if rdy then { vm := ⟨pc + 1, .running⟩ }
-  else if F.doneCase b && ctxClosed then { vm := ⟨pc, .stopped⟩, stop := true }
-  else { vm := ⟨pc, .blocked b⟩ }
+def blockStep (F : Facts) (ctxClosed rdy : Bool) (v : VM) (b : Blocked) : StepResult :=
+  if rdy then { vm := ⟨v.pc + 1, .running, v.frames⟩ }
+  else if F.doneCase b && ctxClosed then stopVM F v
+  else { vm := ⟨v.pc, .blocked b, v.frames⟩ }
 
 def stepVM (F : Facts) (prog : List Instr) (ctxClosed flag rdy : Bool) (v : VM) : StepResult :=
   match v.st with
   | .stopped => { vm := v }
   | .finished => { vm := v }
-  | .finishing => { vm := ⟨v.pc, .finished⟩ }
-  | .inNative 0 => { vm := ⟨v.pc + 1, .running⟩ }
-  | .inNative (k + 1) => { vm := ⟨v.pc, .inNative k⟩ }
-  | .blocked b => blockStep F ctxClosed rdy v.pc b
+  | .finishing => { vm := ⟨v.pc, .finished, v.frames⟩ }
+  | .inNative 0 => { vm := ⟨v.pc + 1, .running, v.frames⟩ }
+  | .inNative (k + 1) => { vm := ⟨v.pc, .inNative k, v.frames⟩ }
+  | .blocked b => blockStep F ctxClosed rdy v b
   | .running =>
-    if F.loopHead && flag then { vm := ⟨v.pc, .stopped⟩, stop := true }
+    if F.loopHead && flag then stopVM F v
     else match prog[v.pc]? with
-      | none => { vm := ⟨v.pc, .finishing⟩ }
-      | some .halt => { vm := ⟨v.pc, .finishing⟩ }
-      | some .compute => { vm := ⟨v.pc + 1, .running⟩ }
-      | some (.jump t) => { vm := ⟨t, .running⟩ }
-      | some (.native k) => { vm := ⟨v.pc, .inNative k⟩ }
-      | some (.go t) => { vm := ⟨v.pc + 1, .running⟩, spawn := some ⟨t, .running⟩ }
-      | some .recv => blockStep F ctxClosed rdy v.pc .recv
-      | some .send => blockStep F ctxClosed rdy v.pc .send
-      | some .rangeChan => blockStep F ctxClosed rdy v.pc .rangeChan
+      | none => { vm := popFrame v.pc v.frames }
+      | some .halt => { vm := popFrame v.pc v.frames }
+      | some .compute => { vm := ⟨v.pc + 1, .running, v.frames⟩ }
+      | some (.jump t) => { vm := ⟨t, .running, v.frames⟩ }
+      | some (.native k) => { vm := ⟨v.pc, .inNative k, v.frames⟩ }
+      | some (.go t) => { vm := ⟨v.pc + 1, .running, v.frames⟩, spawn := some ⟨t, .running, []⟩ }
+      | some (.callback t again) => { vm := ⟨t, .running, ⟨v.pc, t, again⟩ :: v.frames⟩ }
+      | some .recv => blockStep F ctxClosed rdy v .recv
+      | some .send => blockStep F ctxClosed rdy v .send
+      | some .rangeChan => blockStep F ctxClosed rdy v .rangeChan
       | some (.select hasDefault) =>
-        if hasDefault && !rdy then { vm := ⟨v.pc + 1, .running⟩ }   -- default case: never blocks
-        else blockStep F ctxClosed rdy v.pc .select
+        if hasDefault && !rdy then { vm := ⟨v.pc + 1, .running, v.frames⟩ }   -- default case: never blocks
+        else blockStep F ctxClosed rdy v .select
 
 /-- what `runFunc` of the main VM returns once its loop is over: it re-reads the flag -/
 def resultOf (flag : Bool) : Outcome := if flag then .ctxErr else .own
@@ -154,7 +186,7 @@ def Sys.apply (F : Facts) (s : Sys) : Ev → Sys
 def Sys.run (F : Facts) (s : Sys) (evs : List Ev) : Sys := evs.foldl (fun s e => s.apply F e) s
 
 /-- a fresh run of `prog` -/
-def init (prog : List Instr) : Sys := ⟨prog, [⟨0, .running⟩], false, false, none⟩
+def init (prog : List Instr) : Sys := ⟨prog, [⟨0, .running, []⟩], false, false, none⟩
 
 /-- own steps a VM needs, once the flag is set, until it is not live any more: a running VM
 stops at its next loop head; a blocked one may first complete its operation (when a proper case
